@@ -110,7 +110,8 @@ var specs = map[string]*propSpec{
 		guard{"alloc.c06.must_fail_free", 1000, "failing-Free classes must be exercised"}, guard{"alloc.op.free.below-pool", 200, "below-pool class"},
 		guard{"allocconc.porcupine_ok", 300, "concurrent histories incl. Frees of blocks the caller does not hold"}).with(allocConcRun),
 	"C07": allocSpec("Non-trivial (C07) = history containing a hinted allocation on a free block; distinct by (pool, seed).",
-		guard{"alloc.c07.hinted_free_block", 1000, "hints naming a free block"}),
+		guard{"alloc.c07.hinted_free_block", 1000, "hints naming a free block"},
+		guard{"allocconc.porcupine_ok", 300, "concurrent histories: a caller that frees a block and hints it again at once gets it unless somebody else really took it"}).with(allocConcRun),
 	"C01": {
 		level:       "exploration",
 		rule:        "each case draws a DHCPv4 and/or DHCPv6 chain over all built-in plugins (any subset, any order, arguments from each plugin's accepted grammar; half of the cases dual-stack in one process), a listener bound to ve0/vf0 or unbound, and a history of 500-700 datagrams mixing stateful client scripts (6 DHCPv4 clients incl. hlen 0, 5 and 16; 4 DHCPv6 clients with IA_PD hints of length 0/64/72/128/200, IA_NA, relayed with client-link-layer option), retransmissions, grammar-generated well-formed and hostile datagrams, mutations (bit/byte flips, truncation, length +-1, duplication, splice, trailers), the empty datagram and 65507-byte datagrams; then one canary request per protocol. It runs in a fresh server process inside the private network namespace (link-level replies are real frames). Oracle: process alive, every datagram's handling returned (a watchdog expiry is a violation only if the goroutine dump shows a handler parked on a lock), canary handled, at most one reply (UDP captures + sniffed frames) per datagram. The log level is a dimension of the case (debug 1/4, warning 1/8, error 1/8, else info); a slice of the histories runs against a GOARCH=386 build of the whole server (chains without range); the thorough tier adds prefix-plugin instances driven again after a real wait of one hour. Non-trivial = history in which the chain produced at least one reply; distinct by (seed, chains)",
@@ -118,7 +119,7 @@ var specs = map[string]*propSpec{
 		runs: []runSpec{{engine: "hostile", netns: true, qBatches: 16, qCases: 3, tBatches: 64, tCases: 40, stall: 6 * time.Minute},
 			// the same histories against a 32-bit build of the whole server (GOARCH=386, no cgo: chains without range)
 			{engine: "hostile", netns: true, goarch: "386", qBatches: 6, qCases: 2, tBatches: 16, tCases: 12, stall: 6 * time.Minute},
-			wireRun(0, 12), raceSlice(), hourRun()},
+			wireRun(0, 12), wireVarRun(), raceSlice(), hourRun()},
 		guards: []guard{{"hostile.replies", 2000, "replies produced"}, {"hostile.canaries_returned", 40, "canaries"}, {"hostile.plugin.prefix", 5, "prefix in chains"}, {"hostile.plugin.range", 5, "range in chains"}, {"hostile.plugin.file", 5, "file in chains"}, {"hostile.chains_dual_stack", 10, "dual-stack chains"}},
 	},
 	"C02": {
@@ -151,7 +152,7 @@ var specs = map[string]*propSpec{
 		guard{"prefix.replies", 5000, "replies observed"}, guard{"prefix.noprefixavail", 50, "exhaustion"}, guard{"prefix.hint.in-pool-others", 100, "hints on other clients' prefixes"}).with(hourRun()),
 	"C09": prefixSpec("Non-trivial (C09) = history in which a client that already holds a prefix sent another IA_PD (renewal, hint-less repeat or retransmission); distinct by (pool, clients, seed)",
 		guard{"prefix.repeat_or_renewal_from_holder", 2000, "renewals/repeats by holders"}, guard{"prefix.hint.own", 500, "exact renewals"}, guard{"prefix.hint.none", 1000, "hint-less IA_PDs"},
-		guard{"prefix.hint.length-0", 200, "length-0 hints"}, guard{"prefix.audits", 300, "conservation audits"}, guard{"prefix.retransmissions", 500, "retransmissions"}),
+		guard{"prefix.hint.length-0", 200, "length-0 hints"}, guard{"prefix.audits", 300, "conservation audits"}, guard{"prefix.retransmissions", 500, "retransmissions"}).with(wireVarRun()),
 	"C10": {
 		level:       "exploration",
 		rule:        "three kinds of case, each in a fresh server process through LoadPlugins: (static) a generated lease file of 1-40 lines - every MAC spelling (colon/hyphen/dot, 6/8/20 bytes, case) and address spelling (dotted, v4-mapped, compressed/expanded/upper-case IPv6), tabs/multiple blanks, comments, blank lines, duplicates, and in a third of the files one malformation (field count, MAC, address, wrong family) at a random position - accepted iff the reference parser accepts it, and then every listed MAC (and 3 unlisted) is asked for: listed -> last address listed (yiaddr + chain ends; exactly one IA_NA with the request's IAID), unlisted / no IA_NA -> reply identical to the reply without the plugin; (refresh) autorefresh with 1-10 good/bad updates of self-identifying versions, written in place (single equal-length pwrite) or installed by renaming a new file over the name, with or without a hard link that keeps the old file alive: each poll sequence must be old-or-new and monotone, a good version must be served for all MACs within 400 polls / 20 s (re-armed once), a bad one must leave the old version served; (dual) DHCPv4 and DHCPv6 instances in one process with their own files and independent rewrites. Non-trivial = static file with >= 2 entries or malformed, every refresh sequence, every dual case; distinct by content",
@@ -164,7 +165,7 @@ var specs = map[string]*propSpec{
 		level:       "exploration",
 		rule:        "per case one of 7 plugin chains (empty, option plugins, range, file, a NAK-producing plugin, yiaddr-assigning + mtu/staticroute/autoconfigure, ipv6only+sleep+nbp) in a fresh server process inside the private network namespace (listener bound or unbound, both arrival links): (1) the full matrix of 256 opcodes x 23 message-type shapes (absent, 0..18, 255, two-byte, empty) with random relay/broadcast/ciaddr fields, option 61/82/116 presence; (2) 1500 (quick) / 6000 (thorough) generated datagrams (all header fields, hlen 0..16 and beyond, option table with wrong lengths and lying length bytes, pads) of which a third are mutated (bit/byte flips, truncation at structural boundaries, length +-1, duplication, splice, large trailers). Every UDP write (capture hook) and every sniffed link-level frame counts as a reply. Oracle: answered only if the codec accepts it, op=BOOTREQUEST and type DISCOVER/REQUEST; reply fields/echo/type per the statement, at most one reply. Distinct by (chain, opcode class, type bytes, answered?) plus every distinct answered datagram",
 		assumptions: assume("that a non-nil final response is actually sent is C13's statement", "hlen > 16 is clipped by the codec and only checked for no-crash"),
-		runs:        []runSpec{{engine: "match4", netns: true, parallel: 14, qBatches: 7, qCases: 1, tBatches: 140, tCases: 1, stall: 5 * time.Minute}, wireRun(0, 6), wireVarRun(), raceSlice()},
+		runs:        []runSpec{{engine: "match4", netns: true, parallel: 16, qBatches: 8, qCases: 1, tBatches: 160, tCases: 1, stall: 5 * time.Minute}, wireRun(0, 6), wireVarRun(), raceSlice()},
 		guards:      []guard{{"match4.replies_to_type_1", 200, "replies to DISCOVER"}, {"match4.replies_to_type_3", 200, "replies to REQUEST"}, {"match4.dropped", 10000, "dropped datagrams"}, {"match4.replies_l2", 20, "link-level replies"}},
 	},
 	"C12": {
@@ -236,7 +237,9 @@ var specs = map[string]*propSpec{
 		level:       "exploration",
 		rule:        "each case is one built-in plugin (all 15) with one argument vector drawn from valid, boundary and invalid values of each argument kind (addresses of both families and v4-mapped, CIDRs incl. /0 and host routes, durations incl. negative/huge/garbage, integers incl. negative/overflow, URLs, labels of 63/64/255 bytes, file names: valid, malformed, empty, missing, directory; arity 0..6), hosted alone in a fresh server process through plugins.LoadPlugins; if setup accepts it, 40 requests are handled and every reply must parse, re-serialise to the same bytes and carry the options of the in-memory response. Non-trivial = every vector (accepted or rejected); distinct by (plugin, protocol, args)",
 		assumptions: assume("silent truncation that round-trips (MTU 70000 -> 4464) is an observation, not a violation, as the statement only demands a reply that serialises and parses back to the same options"),
-		runs:        []runSpec{{engine: "setup", qBatches: 16, qCases: 180, tBatches: 64, tCases: 4000}},
+		runs: []runSpec{{engine: "setup", qBatches: 16, qCases: 180, tBatches: 64, tCases: 4000},
+			// accepted configurations with several instances of one plugin (dual-stack and twin file instances, empty lease files)
+			{engine: "file", parallel: 12, qBatches: 8, qCases: 12, tBatches: 32, tCases: 60, stall: 6 * time.Minute}},
 		guards:      []guard{{"setup.accepted", 200, "accepted vectors"}, {"setup.rejected", 200, "rejected vectors"}, {"setup.replies_round_tripped", 3000, "replies round-tripped"}},
 	},
 	"C20": {
